@@ -43,6 +43,9 @@ func zeroOfSort(s *Sort) *Term {
 
 func fpLit(f float64) *Term {
 	b := math.Float64bits(f)
+	if floatMode == 0 {
+		return BVLit(b, 64)
+	}
 	return lit(fmt.Sprintf("(fp #b%b #b%011b #x%013x)", b>>63, (b>>52)&0x7ff, b&((1<<52)-1)), SFP)
 }
 
@@ -177,6 +180,15 @@ func (fr *Frame) load(v Val, t types.Type, pos token.Pos, check bool) Val {
 			fr.ctx.typeAssume(cur, t, TTrue)
 		}
 	}
+	if hasPointers(t, 0) && !fr.inQuant && !hasBound(cur) {
+		if _, isIface := t.Underlying().(*types.Interface); !isIface {
+			k := [2]*Term{cur, fr.cur.get("alive", SArray(SRef, SBool))}
+			if !fr.ctx.aliveDone[k] {
+				fr.ctx.aliveDone[k] = true
+				fr.aliveNow(cur, t)
+			}
+		}
+	}
 	return res
 }
 
@@ -195,20 +207,14 @@ func (fr *Frame) rootRead(p *PtrVal) (*Term, []PathElem) {
 		k := globalKey(p.Glob)
 		return fr.ctx.globalRead(st, p.Glob, k), p.Path
 	case RootElem:
-		k := elemKey(p.Elem)
-		es := sortOf(p.Elem)
-		arr := st.get(k, SArray(SRef, SArray(SInt, es)))
-		return Select(Select(arr, p.Arr), p.Idx), p.Path
+		return elemRead(st, elemKey(p.Elem), sortOf(p.Elem), p.Arr, p.Idx), p.Path
 	case RootObj:
-		if st0, ok := p.Obj.Underlying().(*types.Struct); ok && !opaqueStruct(p.Obj) {
-			_ = st0
+		if u, ok := p.Obj.Underlying().(*types.Struct); ok && !opaqueStruct(p.Obj) {
 			if len(p.Path) == 0 {
 				// whole struct: assemble from fields
-				u := p.Obj.Underlying().(*types.Struct)
 				args := make([]*Term, u.NumFields())
 				for i := 0; i < u.NumFields(); i++ {
-					fk := fieldKey(p.Obj, i)
-					args[i] = Select(st.get(fk, SArray(SRef, sortOf(u.Field(i).Type()))), p.Ref)
+					args[i] = objRead(st, fieldKey(p.Obj, i), sortOf(u.Field(i).Type()), p.Ref)
 				}
 				return MkData(sortOf(p.Obj), args...), nil
 			}
@@ -216,12 +222,9 @@ func (fr *Frame) rootRead(p *PtrVal) (*Term, []PathElem) {
 			if pe.Field < 0 {
 				unsupported("index into struct object")
 			}
-			u := p.Obj.Underlying().(*types.Struct)
-			fk := fieldKey(p.Obj, pe.Field)
-			return Select(st.get(fk, SArray(SRef, sortOf(u.Field(pe.Field).Type()))), p.Ref), p.Path[1:]
+			return objRead(st, fieldKey(p.Obj, pe.Field), sortOf(u.Field(pe.Field).Type()), p.Ref), p.Path[1:]
 		}
-		k := cellKey(p.Obj)
-		return Select(st.get(k, SArray(SRef, sortOf(p.Obj))), p.Ref), p.Path
+		return objRead(st, cellKey(p.Obj), sortOf(p.Obj), p.Ref), p.Path
 	}
 	panic("rootRead")
 }
@@ -259,29 +262,25 @@ func (fr *Frame) store(pv Val, t types.Type, val *Term, pos token.Pos, check boo
 	case RootElem:
 		k := elemKey(p.Elem)
 		es := sortOf(p.Elem)
-		arr := st.get(k, SArray(SRef, SArray(SInt, es)))
-		inner := Select(arr, p.Arr)
-		cur := Select(inner, p.Idx)
-		st.set(k, Store(arr, p.Arr, Store(inner, p.Idx, updatePath(cur, p.Path, val))))
+		cur := elemRead(st, k, es, p.Arr, p.Idx)
+		elemWrite(st, k, es, p.Arr, p.Idx, updatePath(cur, p.Path, val))
 	case RootObj:
 		if u, ok := p.Obj.Underlying().(*types.Struct); ok && !opaqueStruct(p.Obj) {
 			if len(p.Path) == 0 {
 				for i := 0; i < u.NumFields(); i++ {
-					fk := fieldKey(p.Obj, i)
-					a := st.get(fk, SArray(SRef, sortOf(u.Field(i).Type())))
-					st.set(fk, Store(a, p.Ref, DataField_(val, i)))
+					objWrite(st, fieldKey(p.Obj, i), sortOf(u.Field(i).Type()), p.Ref, DataField_(val, i))
 				}
 				return
 			}
 			pe := p.Path[0]
 			fk := fieldKey(p.Obj, pe.Field)
-			a := st.get(fk, SArray(SRef, sortOf(u.Field(pe.Field).Type())))
-			st.set(fk, Store(a, p.Ref, updatePath(Select(a, p.Ref), p.Path[1:], val)))
+			fs := sortOf(u.Field(pe.Field).Type())
+			objWrite(st, fk, fs, p.Ref, updatePath(objRead(st, fk, fs, p.Ref), p.Path[1:], val))
 			return
 		}
 		k := cellKey(p.Obj)
-		a := st.get(k, SArray(SRef, sortOf(p.Obj)))
-		st.set(k, Store(a, p.Ref, updatePath(Select(a, p.Ref), p.Path, val)))
+		s := sortOf(p.Obj)
+		objWrite(st, k, s, p.Ref, updatePath(objRead(st, k, s, p.Ref), p.Path, val))
 	}
 }
 
@@ -556,10 +555,12 @@ func (fr *Frame) makeSlice(x *ssa.MakeSlice) {
 	c.oblige(fr, "make-size", fr.ctx.eng.exprText(x.Pos(), "call"), And(BVCmp("bvsle", BVLit(0, 64), l), BVCmp("bvsle", l, cp), BVCmp("bvsle", cp, BVLit(limit, 64))), x.Pos())
 	arr := c.freshRef(fr, et, "arr")
 	// zeroed contents
-	k := elemKey(et)
 	es := sortOf(et)
-	heap := fr.cur.get(k, SArray(SRef, SArray(SInt, es)))
-	fr.cur.set(k, Store(heap, arr, zeroOfSort(SArray(SInt, es))))
+	var zs []*Term
+	for _, lf := range leavesOf(es) {
+		zs = append(zs, zeroOfSort(SArray(SInt, lf.sort)))
+	}
+	elemSetInners(fr.cur, elemKey(et), es, arr, zs)
 	fr.vals[x] = Val{T: MkData(SSlice, arr, BVLit(0, 64), l, cp)}
 }
 
@@ -614,10 +615,24 @@ func (fr *Frame) sliceOp(x *ssa.Slice) {
 		base := fr.value(x.X)
 		av := fr.load(base, t.Elem(), x.Pos(), true)
 		arr := c.freshRef(fr, at.Elem(), "arrslice")
-		k := elemKey(at.Elem())
 		es := sortOf(at.Elem())
-		heap := fr.cur.get(k, SArray(SRef, SArray(SInt, es)))
-		fr.cur.set(k, Store(heap, arr, av.T))
+		if es.K == KData {
+			if at.Len() > 64 {
+				unsupported("slicing a large array of structs")
+			}
+			var inners []*Term
+			for _, lf := range leavesOf(es) {
+				in := FreshVar("arrslice", SArray(SInt, lf.sort))
+				for i := int64(0); i < at.Len(); i++ {
+					ix := BVLit(uint64(i), 64)
+					in = Store(in, ix, leafVal(Select(av.T, ix), lf))
+				}
+				inners = append(inners, in)
+			}
+			elemSetInners(fr.cur, elemKey(at.Elem()), es, arr, inners)
+		} else {
+			elemSetInners(fr.cur, elemKey(at.Elem()), es, arr, []*Term{av.T})
+		}
 		c.note("slice of array treated as a copy in " + fr.fn.String())
 		fr.vals[x] = Val{T: MkData(SSlice, arr, lo, BV("bvsub", hi, lo), BV("bvsub", n, lo))}
 	default:
@@ -688,7 +703,9 @@ func (fr *Frame) binop(x *ssa.BinOp) *Term {
 	switch x.Op {
 	case token.EQL, token.NEQ:
 		var eq *Term
-		if isFloat(xt) {
+		if isFloat(xt) && floatMode == 0 {
+			eq = UFApp("ofp.eq", SBool, a.term(), b.term())
+		} else if isFloat(xt) {
 			eq = App("fp.eq", SBool, a.term(), b.term())
 		} else {
 			at, bt := a.term(), b.term()
@@ -822,6 +839,9 @@ func (fr *Frame) goEq(t types.Type, a, b *Term) *Term {
 	switch u := t.Underlying().(type) {
 	case *types.Basic:
 		if u.Info()&types.IsFloat != 0 {
+			if floatMode == 0 {
+				return UFApp("ofp.eq", SBool, a, b)
+			}
 			return App("fp.eq", SBool, a, b)
 		}
 		if u.Info()&types.IsString != 0 {
@@ -857,6 +877,13 @@ func (fr *Frame) goEq(t types.Type, a, b *Term) *Term {
 }
 
 func (c *Ctx) floatBin(op token.Token, a, b *Term) *Term {
+	if floatMode == 0 {
+		switch op {
+		case token.LSS, token.LEQ, token.GTR, token.GEQ:
+			return UFApp("ofp."+op.String(), SBool, a, b)
+		}
+		return UFApp("ofp."+op.String(), a.S, a, b)
+	}
 	switch op {
 	case token.LSS:
 		return App("fp.lt", SBool, a, b)
@@ -899,7 +926,9 @@ func (fr *Frame) unop(x *ssa.UnOp) {
 		fr.vals[x] = Val{T: Not(fr.term(x.X))}
 	case token.SUB:
 		t := fr.term(x.X)
-		if isFloat(x.X.Type()) {
+		if isFloat(x.X.Type()) && floatMode == 0 {
+			fr.vals[x] = Val{T: UFApp("ofp.neg", t.S, t)}
+		} else if isFloat(x.X.Type()) {
 			fr.vals[x] = Val{T: App("fp.neg", t.S, t)}
 		} else {
 			fr.vals[x] = Val{T: App("bvneg", t.S, t)}
@@ -929,6 +958,18 @@ func (fr *Frame) convert(x *ssa.Convert) *Term {
 		default:
 			return ZeroExt(tw-fw, t)
 		}
+	case isInteger(from) && isFloat(to) && floatMode == 0:
+		if v, ok := t.IsLitBV(); ok && isSigned(from) {
+			sv := int64(v)
+			if t.S.W < 64 {
+				sv = int64(v<<(64-uint(t.S.W))) >> (64 - uint(t.S.W))
+			}
+			return fpLit(float64(sv))
+		}
+		return UFApp(fmt.Sprintf("ofp.from_%s%d", map[bool]string{true: "i", false: "u"}[isSigned(from)], t.S.W), sortOf(to), t)
+	case isFloat(from) && isInteger(to) && floatMode == 0:
+		w := sortOf(to).W
+		return UFApp(fmt.Sprintf("ofp.to_%s%d", map[bool]string{true: "i", false: "u"}[isSigned(to)], w), SBV(w), t)
 	case isInteger(from) && isFloat(to):
 		if sortOf(to).K != KFP {
 			unsupported("float32 conversion")
